@@ -11,9 +11,10 @@
        rows and leaves the policy and the bandit Leibniz-equal (C17Lin);
     ..._partial: linear policies and Clusters over linear policies can raise from np.linalg.inv inside a per-arm
     task after earlier arms were updated - for l2_lambda = 0 only: for l2_lambda > 0 the matrix is never singular (C02,
-    ridge_fits_never_singular); the branch is modelled, not excluded, and is outside this theorem. Ill-typed arguments are outside the model and covered by the 19-class relation. *)
+    ridge_fits_never_singular); the branch is modelled, and for l2_lambda = 0 the property is REFUTED on the model with a concrete witness
+    (finding D22, reproduced on the code: LinAlgError after the first arm was refitted). Ill-typed arguments are outside the model and covered by the 19-class relation. *)
 From Coq Require Import List ZArith Bool Arith QArith Qcanon Permutation.
-From MW Require Import Num Assoc AssocFacts Rng Par CF CFInv CFClean CFForget CFSpec Matrix Lin Warm WarmInv Nbr NbrFacts NbrIndep LshFacts Clu Tree CellFacts Mab FacadeCF FacadeArms MoreFacts NumLaws CFAlg Sim Extra QcInst OrderFacts ExpIrrel LinInv FacadeLin LpInv NbrInv CluTreeInv FacadeAll ToyFacts C09All C10All LinForget LinSim MatrixFacts GaussJordan LinSpec NbrIndepGen CluIndep C17Lin WarmIdem C14More LshScale TreeLeaf Rename PopSpec CopyFacts StatFacts CluBatch LinWarm.
+From MW Require Import Num Assoc AssocFacts Rng Par CF CFInv CFClean CFForget CFSpec Matrix Lin Warm WarmInv Nbr NbrFacts NbrIndep LshFacts Clu Tree CellFacts Mab FacadeCF FacadeArms MoreFacts NumLaws CFAlg Sim Extra QcInst OrderFacts ExpIrrel LinInv FacadeLin LpInv NbrInv CluTreeInv FacadeAll ToyFacts C09All C10All LinForget LinSim MatrixFacts GaussJordan LinSpec NbrIndepGen CluIndep C17Lin WarmIdem C14More LshScale TreeLeaf Rename PopSpec CopyFacts StatFacts CluBatch LinWarm C17Singular.
 Import ListNotations.
 
 Theorem C17_rejected_arm_or_warm_start_call_changes_nothing :
@@ -74,5 +75,12 @@ Theorem C17_rejected_add_arm_unchanged :
   snd (step N aeqb RG m (AddArm a bz)) = ORejected -> fst (step N aeqb RG m (AddArm a bz)) = m.
 Proof. exact @add_arm_rejected_unchanged. Qed.
 Print Assumptions C17_rejected_add_arm_unchanged.
+
+Theorem C17_rejected_singular_partial_fit_at_l2_zero_refuted :
+  snd (step QcNum Z.eqb ToyRng d22_fitted d22_call) = ORejected /\
+  beta_of d22_fitted 1 = [qz 1; qz 2] /\
+  beta_of (fst (step QcNum Z.eqb ToyRng d22_fitted d22_call)) 1 <> [qz 1; qz 2].
+Proof. exact @rejected_singular_partial_fit_refuted. Qed.
+Print Assumptions C17_rejected_singular_partial_fit_at_l2_zero_refuted.
 
 
